@@ -1,5 +1,6 @@
 import Driver.Util
 import CtyModel.MsgpackSpec
+import CtyModel.d16Set
 open CtyModel
 open CtyModel.Msgpack
 
@@ -20,8 +21,10 @@ Items travel as
 * `mp.implied <item>` → `ok <ty>` …
 * `mp.parse x<hex>` → `ok <num>` … (`cty.ParseNumberVal`)
 * `mp.fits <value> <ty> <oracle>` → `0|1`: the hypotheses of `C16.roundtrip_covers` (`Fits`, conformance)
-* `mp.fitsimp <value> <ty> <oracle> <ok 0|1>` → `1` if the hypotheses hold, else the last argument echoed:
-  equal to "did the real round trip satisfy the property" exactly when hypotheses ⇒ real outcome -/
+* `mp.fitsimp` / `mp.fitsimp-sets <value> <ty> <oracle> <ok 0|1>` → `1` if ALL the hypotheses of
+  `C16.roundtrip_covers_sets_partial` hold (`Fits`, conformance, `setsApart`), else `unmodelled` (the case is
+  then not counted as compared): the harness' own answer is "did the real round trip satisfy the property",
+  so a mismatch is exactly a case where the hypotheses hold and the real code fails -/
 
 namespace HMsgpack
 
@@ -107,31 +110,15 @@ def decOracle : Sexp → Option (List (List UInt8 × String))
     | _ => none
   | _ => none
 
-/-- `setRules.Equivalent` as far as the driver needs it to mimic `cty.SetVal`'s
-de-duplication: `Equals` is known and true (never for a member holding an unknown) -/
-partial def equivP : Payload → Payload → Bool
-  | .null, .null => true
-  | .b x, .b y => x == y
-  | .s x, .s y => x == y
-  | .n x, .n y => Num.rawEqual x y
-  | .seq xs, .seq ys => xs.length == ys.length && (xs.zip ys).all fun p => equivP p.1 p.2
-  | .smap ks xs, .smap ls ys => ks == ls && xs.length == ys.length && (xs.zip ys).all fun p => equivP p.1 p.2
-  | .sset _ xs, .sset _ ys => xs.length == ys.length && xs.all fun x => ys.any fun y => equivP x y
-  | _, _ => false
-
-/-- keep the first of equivalent members (what `set.Add` does) -/
-def dedupP : List Payload → List Payload → List Payload
-  | [], acc => acc.reverse
-  | x :: xs, acc => if acc.any (equivP · x) then dedupP xs acc else dedupP xs (x :: acc)
-
 /-- the external functions as the driver sees them: strings arrive normalised,
 `SafeKnownPrefix` is a table computed by the real function, and a set is just
-its member list without equivalent duplicates (compared up to order by the harness;
+its member list without equivalent duplicates (`Msgpack.setOfDedup`, d16Set.lean: total, and
+the instance `C16.roundtrip_covers_sets_partial` is proved for; compared up to order by the harness;
 bucket ids, i.e. the hash, are property C03's) -/
 def extOf (tbl : List (List UInt8 × String)) : Ext where
   norm := id
   safePrefix := fun bs => (tbl.find? fun e => e.1 == bs).map (·.2)
-  setOf := fun _ vs => .ok (.sset [] (dedupP vs []))
+  setOf := setOfDedup
 
 end HMsgpack
 
@@ -163,7 +150,14 @@ def handleMsgpack : Handler := fun op args =>
     let v ← Value.ofSexp v
     let t ← Ty.ofSexp t
     let tbl ← decOracle o
-    pure (if Fits (extOf tbl) t v && Ty.conformErrs t v.ty == 0 then "1" else ok)
+    -- every hypothesis of `C16.roundtrip_covers_sets_partial` is evaluated; where one fails the case is not compared
+    let _ := ok
+    pure (if Fits (extOf tbl) t v && Ty.conformErrs t v.ty == 0 && setsApart v.ty v.v then "1" else "unmodelled")
+  | "mp.fitsimp-sets", [v, t, o, .atom _] => do
+    let v ← Value.ofSexp v
+    let t ← Ty.ofSexp t
+    let tbl ← decOracle o
+    pure (if Fits (extOf tbl) t v && Ty.conformErrs t v.ty == 0 && setsApart v.ty v.v then "1" else "unmodelled")
   | "mp.parse", [s] => do
     let s ← Sexp.decStr s
     pure (resTag (fun x => toString x.toSexp) (parseNumber s))
